@@ -11,6 +11,8 @@ type GenOpts struct {
 	NoGasOp     bool // gas-insensitive: never read GAS, never pass "all gas" via GAS
 	NoCodeIntro bool // code-insensitive: no CODECOPY/CODESIZE/EXTCODE* on contracts
 	Cancun      bool // include TLOAD/TSTORE/MCOPY gadgets
+	NoMcopy     bool // with Cancun: transient storage only (for the differential against upstream + EIP-1153)
+	HugeMcopy   bool // MCOPY gadgets also draw boundary / huge operands
 	TloadByte   byte // byte emitted for TLOAD (default 0x5c)
 	TstoreByte  byte // byte emitted for TSTORE (default 0x5d)
 	Artela      bool // include calls to 0x64..0x66
@@ -78,6 +80,27 @@ func (g *Gen) smallLen() uint64 {
 		return 64
 	default:
 		return uint64(g.R.Intn(200))
+	}
+}
+
+// mcopyOperand draws an MCOPY operand: mostly small, sometimes at a boundary or huge.
+func (g *Gen) mcopyOperand(isLen bool) *uint256.Int {
+	switch g.R.Intn(10) {
+	case 0:
+		return uint256.NewInt(0)
+	case 1:
+		return uint256.NewInt(uint64(31 + g.R.Intn(3)))
+	case 2:
+		return new(uint256.Int).Lsh(uint256.NewInt(1), uint(Pick(g.R, []int{16, 31, 32, 63, 64, 128, 255})))
+	case 3:
+		return new(uint256.Int).Not(uint256.NewInt(0))
+	case 4:
+		return uint256.NewInt(uint64(g.R.Intn(5000)))
+	default:
+		if isLen {
+			return uint256.NewInt(g.smallLen())
+		}
+		return uint256.NewInt(g.smallOff())
 	}
 }
 
@@ -163,8 +186,12 @@ func (g *Gen) gMem() {
 		g.op(MLOAD)
 		g.op(POP)
 	case 6:
-		if g.O.Cancun {
-			g.A.PushU(g.smallLen()).PushU(g.smallOff()).PushU(g.smallOff())
+		if g.O.Cancun && !g.O.NoMcopy {
+			if g.O.HugeMcopy && g.R.Chance(35) {
+				g.A.Push(g.mcopyOperand(true)).Push(g.mcopyOperand(false)).Push(g.mcopyOperand(false))
+			} else {
+				g.A.PushU(g.smallLen()).PushU(g.smallOff()).PushU(g.smallOff())
+			}
 			g.op(MCOPY)
 		} else {
 			g.A.Push(g.R.Operand()).PushU(g.smallOff())
